@@ -62,7 +62,8 @@ func (e *Engine) Obligations(fn *ssa.Function) []Obl {
 	}
 	kit.Instrs(fn, func(in ssa.Instruction) {
 		e.StartTrace()
-		defer func() { e.pendingTrace = nil }()
+		e.at = in.Block()
+		defer func() { e.pendingTrace = nil; e.at = nil }()
 		switch x := in.(type) {
 		case *ssa.Slice:
 			if x.Low == nil && x.High == nil && x.Max == nil {
